@@ -439,7 +439,8 @@ def replay_counterexample(h, res, unwindset):
     logfile = os.path.join(LOGS, h.name + ".pb.log")
     cwd, cmd = kani_cmd(h, json_path, unwindset, playback=True)
     timeout_s = int(h.get("timeout", "900")) * 2
-    run_proc(cmd, cwd, logfile, timeout_s, float(h.get("mem", "12")),
+    # the driver itself parses the full counterexample trace: give the playback run generous memory
+    run_proc(cmd, cwd, logfile, timeout_s, max(32.0, float(h.get("mem", "12"))),
              {"CARGO_TARGET_DIR": target_dir_for(h)})
     logtxt = open(logfile, errors="replace").read()
     tests = extract_playback_tests(logtxt)
